@@ -151,9 +151,6 @@ def build(E):
     # followed the request line (clause [C07,C14] of GeminiServerProtocol.data_received and friends), and no upload handler call
     # without the gates of C04/C08 - the server protocol's event contracts, filtered to the clauses tagged C14
     from contracts import server_events
-    own_keep_prefix = f"{H}."
-    server_events.build_for(E, spec, "C14")
-    ev_keep = spec.keep
-    spec.keep = lambda name: True if name.startswith(own_keep_prefix) else ev_keep(name)
+    spec.subs = [server_events.as_sub("C14")]
     spec.trusted += ["E8 (pyvc/fsmodel.py)", "handler objects are those the real FileUploadHandler.__init__ produces", "the protocol passes len(content) == size (C07); an empty token/type collection counts as not configured (as in the code)"]
     return spec
